@@ -1802,6 +1802,23 @@ def _(E, c):
     return OpaqueV('anyhow')
 
 
+for _k in ('Trait', 'Adhoc', 'Boxed'):
+    EXTERNAL_CONSTS['anyhow::kind::' + _k] = OpaqueV('anyhow_kind')
+    EXTERNAL_CONSTS['kind::' + _k] = OpaqueV('anyhow_kind')
+
+
+@model('re:^<.* as TraitKind>::anyhow_kind$', 're:^<.* as AdhocKind>::anyhow_kind$', 're:^<.* as BoxedKind>::anyhow_kind$')
+def _(E, c):
+    return OpaqueV('anyhow_kind')
+
+
+@model('re:^(anyhow::)?kind::(Trait|Adhoc|Boxed)::new$', 're:^Trait::new$', 're:^Adhoc::new$', 're:^Boxed::new$')
+def _(E, c):
+    """anyhow!(err) on a typed error: an anyhow error wrapping it (downcast recovers it)"""
+    v = E.deref(c.args[-1])
+    return OpaqueV('anyhow', v if isinstance(v, (StructV, LazyV)) else None)
+
+
 @model('re:^<(Option|Result) as Context>::(context|with_context)$')
 def _(E, c):
     """anyhow::Context: Option -> Result<_, anyhow::Error>; Result keeps its value, the error becomes an anyhow error"""
@@ -2430,6 +2447,57 @@ for _n, _v in (('FIL_COMMITMENT_SEALED', 0xf102), ('FIL_COMMITMENT_UNSEALED', 0x
     EXTERNAL_CONSTS[_n] = IntV(_v, 'u64')
     EXTERNAL_CONSTS['fvm_shared::commcid::' + _n] = IntV(_v, 'u64')
     EXTERNAL_CONSTS['commcid::' + _n] = IntV(_v, 'u64')
+
+
+@model('BitField::try_from_bits')
+def _(E, c):
+    it = as_iter(E, c.args[0])
+    cur = BitSetV(())
+    while True:
+        x = it.next(E)
+        if x is None:
+            break
+        xv = E.deref(x)
+        xv = xv.v if isinstance(xv, IntV) else xv
+        if not _bs_has(E, cur, xv):
+            cur = BitSetV(cur.bits + (xv,))
+    return ok(cur, c.dest_ty)
+
+
+@model('re:^<&?BitField as BitAnd(<&?BitField>)?>::bitand$')
+def _(E, c):
+    a, b = _bitset(E, c.args[0]), _bitset(E, c.args[1])
+    if isinstance(a, BitSetV) and isinstance(b, BitSetV):
+        return BitSetV(tuple(x for x in a.bits if _bs_has(E, b, x)))
+    if isinstance(a, BitSetV) and isinstance(b, BitFieldV):
+        a, b = b, a
+    if isinstance(a, BitFieldV) and isinstance(b, BitSetV):
+        # explicit members of b that the symbolic field a contains (membership per element, memoised)
+        out = []
+        for x in b.bits:
+            tbl = E.ctx.memo.setdefault(('bfbits', a.name), [])
+            bit = None
+            for (kt, bb) in tbl:
+                if E.ctx.branch(kt == x):
+                    bit = bb
+                    break
+            if bit is None:
+                bit = z3.Bool('%s.bit[%d]' % (a.name, len(tbl)))
+                tbl.append((x, bit))
+                E.ctx.assume(z3.Implies(bit, z3.Int(a.name + '#card') >= 1))
+            if E.ctx.branch(bit):
+                out.append(x)
+        return BitSetV(tuple(out))
+    return NotImplemented
+
+
+@model('BitField::union')
+def _(E, c):
+    items = [_bitset(E, x) for x in as_iter(E, c.args[0]).items] if hasattr(as_iter(E, c.args[0]), 'items') else None
+    nm = E.ctx.fresh_name('bf_union')
+    n = z3.Int(nm + '#card')
+    E.ctx.assume(n >= 0)
+    return BitFieldV(nm)
 
 
 AS_ITER[BitSetV] = _bs_iter
